@@ -146,6 +146,9 @@ pub struct Lockstep {
     /// (node, root of the request) of wrong values handed to the user in the
     /// current epoch
     pub user_stale: Vec<(Key, Option<Key>)>,
+    /// nodes executed in the current epoch on a wrong dependency value ->
+    /// that first wrong read (node, value, reader, root)
+    pub taint: HashMap<Key, (Key, Val, Option<(Key, Option<Vec<Dep>>)>, Option<Key>)>,
 }
 
 impl Lockstep {
@@ -157,6 +160,7 @@ impl Lockstep {
             findings: Vec::new(),
             stale_seen: Vec::new(),
             user_stale: Vec::new(),
+            taint: HashMap::new(),
             step: 0,
             fstep: 0,
             activations: 0,
@@ -186,6 +190,34 @@ impl Lockstep {
         got: Val,
         reader: Option<(Key, Option<Vec<Dep>>)>,
     ) {
+        // The node whose value is wrong was itself (re-)executed in this
+        // epoch on a wrong value of one of its dependencies: what it returns
+        // is a consequence of that first wrong read and is classified like it
+        // (the value need not be an old value of the node: it is computed
+        // from a mixture of new and stale dependencies).
+        if let Some((k0, g0, r0, root0)) = self.taint.get(&key).cloned() {
+            if let Some((rk, _)) = &reader {
+                let src = (k0, g0, r0.clone(), root0);
+                self.taint.entry(*rk).or_insert(src);
+            }
+            self.findings.push(Finding {
+                property: "C01",
+                step: self.step,
+                fstep: self.fstep,
+                what: format!(
+                    "{what} (computed in this epoch from the wrong value {g0} of {k0:?} that its executor was handed)"
+                ),
+                key: Some(k0),
+                got: Some(g0),
+                reader: r0,
+                root: root0,
+                stale_dep: None,
+            });
+            return;
+        }
+        if let Some((rk, _)) = &reader {
+            self.taint.entry(*rk).or_insert((key, got, reader.clone(), self.cur_root));
+        }
         // A wrong value handed to the USER for a node that an executor was
         // already handed the same wrong value for, earlier in this epoch, is
         // the same stale verification seen again (the node was stamped
@@ -405,6 +437,7 @@ impl Lockstep {
         self.judge.since_session.clear();
         self.stale_seen.clear();
         self.user_stale.clear();
+        self.taint.clear();
     }
 }
 
@@ -861,6 +894,18 @@ pub fn alphabet(p: &Program, rich: bool) -> Vec<Op> {
                 Op::Session { writes: vec![W::Set(i, v)], commit: true },
                 Op::Query(all_top_down.clone()),
             ]));
+        }
+    }
+    // an edit followed by a query of the LOWEST node only (everything above
+    // it is not repaired in that epoch)
+    if n >= 2 {
+        if let Some(&i) = ins.first() {
+            for v in [1, 0] {
+                ops.push(Op::Multi(vec![
+                    Op::Session { writes: vec![W::Set(i, v)], commit: true },
+                    Op::Query(vec![Key::C(0)]),
+                ]));
+            }
         }
     }
     if ins.len() >= 2 {
